@@ -185,7 +185,9 @@ def main():
     caps_hit = []
     jobs = max(1, min(a.jobs, len(shards)))
     mpc = multiprocessing.get_context("fork")
-    pool = mpc.Pool(jobs, initializer=_worker_init)
+    # one freshly forked worker per shard (forked from this process, which executes no case itself): the process-global
+    # state a shard starts from is always the initial one, so a shard is a deterministic history whatever the schedule
+    pool = mpc.Pool(jobs, initializer=_worker_init, maxtasksperchild=1)
     try:
         it = pool.imap_unordered(_worker_run, range(len(shards)), chunksize=1)
         while True:
